@@ -4,6 +4,7 @@ import (
 	"bytes"
 	"context"
 	"encoding/json"
+	"errors"
 	"fmt"
 	"math/big"
 	"math/rand"
@@ -91,13 +92,32 @@ func pbFEPCommitment(c *nodetypes.Certificate) common.Hash {
 
 // c10Compare checks that every field covered by the commitment / identity is identical in the
 // certificate, in the protobuf message built by the real gRPC client, and in the JSON round trip
-func c10Compare(cert *agglayertypes.Certificate, label string) (string, string) {
+// c10Wire is one long-lived real gRPC client (like the node's) in front of a capturing submission
+// service that can be made to fail: what a client sends must not depend on its earlier calls
+type c10Wire struct {
+	sub *fakes.SubmissionCapture
+	cl  *agglayergrpc.AgglayerGRPCClient
+}
+
+func newC10Wire() *c10Wire {
 	sub := &fakes.SubmissionCapture{}
-	cl := agglayergrpc.VerifNewAgglayerGRPCClient(grpcCfg(), nil, nil, sub)
+	return &c10Wire{sub: sub, cl: agglayergrpc.VerifNewAgglayerGRPCClient(grpcCfg(), nil, nil, sub)}
+}
+
+func c10Compare(w *c10Wire, cert *agglayertypes.Certificate, label string, failFirst bool) (string, string) {
+	sub, cl := w.sub, w.cl
+	if failFirst {
+		// the Agglayer is unavailable for one attempt; the same client then sends again
+		sub.Err = errors.New("agglayer unavailable (injected)")
+		_, _ = cl.SendCertificate(context.Background(), cert)
+		sub.Err = nil
+		label += " (second attempt after a failed submission through the same client)"
+	}
 	if _, err := cl.SendCertificate(context.Background(), cert); err != nil {
 		return "C10:wire-conversion-error", label + ": " + err.Error()
 	}
 	pb := sub.Last().Certificate
+	sub.Reset()
 	if pb.NetworkId != cert.NetworkID || pb.Height != cert.Height || pbHash(pb.PrevLocalExitRoot) != cert.PrevLocalExitRoot || pbHash(pb.NewLocalExitRoot) != cert.NewLocalExitRoot ||
 		pbHash(pb.Metadata) != cert.Metadata || pb.GetL1InfoTreeLeafCount() != cert.L1InfoTreeLeafCount || len(pb.BridgeExits) != len(cert.BridgeExits) || len(pb.ImportedBridgeExits) != len(cert.ImportedBridgeExits) {
 		return "C10:wire:header-field-altered", label + ": network/height/LERs/metadata/leaf count/#exits differ between the certificate and the wire message"
@@ -221,6 +241,11 @@ func randCertificate(g *rand.Rand, fep bool) *agglayertypes.Certificate {
 		ibe := &agglayertypes.ImportedBridgeExit{BridgeExit: randBridgeExit(g)}
 		if g.Intn(2) == 0 {
 			ibe.GlobalIndex = &agglayertypes.GlobalIndex{MainnetFlag: true, LeafIndex: randU32(g)}
+			if g.Intn(8) == 0 {
+				// what DecodeGlobalIndex yields for an on-chain index with the mainnet bit and left-over
+				// rollup bits: every encoder must normalise it the same way
+				ibe.GlobalIndex.RollupIndex = 1 + uint32(g.Intn(1<<20))
+			}
 			ibe.ClaimData = &agglayertypes.ClaimFromMainnnet{ProofLeafMER: randMerkleProof(g), ProofGERToL1Root: randMerkleProof(g), L1Leaf: randL1Leaf(g)}
 		} else {
 			ibe.GlobalIndex = &agglayertypes.GlobalIndex{RollupIndex: randU32(g), LeafIndex: randU32(g)}
@@ -369,6 +394,7 @@ func TestC10(t *testing.T) {
 			}
 			defer a.close()
 			seen := 0
+			wire := newC10Wire()
 			for st := 0; st < 40+g.Intn(40) && !a.dead; st++ {
 				a.step(alphabet[g.Intn(len(alphabet))])
 				a.m.mu.Lock()
@@ -390,7 +416,7 @@ func TestC10(t *testing.T) {
 						}
 					}
 					// (2)+(3) wire message and JSON form
-					if sig, what := c10Compare(mc.Cert, label); sig != "" {
+					if sig, what := c10Compare(wire, mc.Cert, label, g.Intn(3) == 0); sig != "" {
 						a.violate(sig, what)
 					}
 					// (3b) the node's own stored copy
@@ -421,6 +447,7 @@ func TestC10(t *testing.T) {
 	var perts int64
 	parallel(workers, workers, func(wk int) {
 		g := rng(r, "c10rand", wk)
+		wire := newC10Wire()
 		for i := 0; i < nRand/workers; i++ {
 			caseID := fmt.Sprintf("rand/%d/%d", wk, i)
 			if !r.Only(caseID) {
@@ -430,7 +457,7 @@ func TestC10(t *testing.T) {
 			c := randCertificate(g, fep)
 			sc := map[string]any{"fep": fep, "exits": len(c.BridgeExits), "imported": len(c.ImportedBridgeExits)}
 			guard(r, caseID, sc, func() {
-				if sig, what := c10Compare(c, "random certificate"); sig != "" {
+				if sig, what := c10Compare(wire, c, "random certificate", g.Intn(4) == 0); sig != "" {
 					raw, _ := json.Marshal(c)
 					sc["certificate"] = json.RawMessage(raw)
 					r.Violation(sig, caseID, what, sc)
